@@ -300,6 +300,10 @@ class NestedExtensionArray(ExtensionArray):
                 "Only integers, slices and integer or boolean arrays are valid indices."
             )  # pragma: no cover
 
+        # Nothing is selected, nothing to assign
+        if not pa.compute.any(pa_mask).as_py():
+            return
+
         # Try to convert to struct_scalar first, if it fails, convert to array
         try:
             scalar = self._box_pa_scalar(value, pa_type=self._pyarrow_dtype)
